@@ -17,8 +17,10 @@ import (
 	"fmt"
 	"go/ast"
 	"go/format"
+	"go/importer"
 	"go/parser"
 	"go/token"
+	"go/types"
 	"os"
 	"path/filepath"
 	"sort"
@@ -199,13 +201,221 @@ func load(src string) (*token.FileSet, map[string]*ast.File, []site) {
 	return fset, parsed, all
 }
 
+// ---- type-aware operators (-typed): wrong variable, wrong field, swapped arguments
+
+type modImporter struct {
+	fset *token.FileSet
+	src  string
+	std  types.Importer
+	done map[string]*types.Package
+}
+
+func (m *modImporter) Import(path string) (*types.Package, error) {
+	const mod = "go.uber.org/dig"
+	if !strings.HasPrefix(path, mod+"/") {
+		return m.std.Import(path)
+	}
+	if p, ok := m.done[path]; ok {
+		return p, nil
+	}
+	dir := filepath.Join(m.src, strings.TrimPrefix(path, mod+"/"))
+	fs, _, err := parseDir(m.fset, dir)
+	if err != nil {
+		return nil, err
+	}
+	conf := types.Config{Importer: m}
+	p, err := conf.Check(path, m.fset, fs, nil)
+	if err != nil {
+		return nil, err
+	}
+	m.done[path] = p
+	return p, nil
+}
+
+// parseDir parses the non-test files of dir that are built without tags.
+func parseDir(fset *token.FileSet, dir string) ([]*ast.File, []string, error) {
+	ents, err := os.ReadDir(dir)
+	if err != nil {
+		return nil, nil, err
+	}
+	var fs []*ast.File
+	var names []string
+	for _, e := range ents {
+		n := e.Name()
+		if e.IsDir() || !strings.HasSuffix(n, ".go") || strings.HasSuffix(n, "_test.go") {
+			continue
+		}
+		b, err := os.ReadFile(filepath.Join(dir, n))
+		if err != nil {
+			return nil, nil, err
+		}
+		if bytes.Contains(b, []byte("//go:build verif")) {
+			continue
+		}
+		f, err := parser.ParseFile(fset, filepath.Join(dir, n), b, parser.ParseComments)
+		if err != nil {
+			return nil, nil, err
+		}
+		fs = append(fs, f)
+		names = append(names, n)
+	}
+	return fs, names, nil
+}
+
+func loadTyped(src string) (*token.FileSet, map[string]*ast.File, []site) {
+	fset := token.NewFileSet()
+	imp := &modImporter{fset: fset, src: src, std: importer.ForCompiler(fset, "source", nil), done: map[string]*types.Package{}}
+	var all []site
+	parsed := map[string]*ast.File{}
+	for _, dir := range []string{"", "internal/dot", "internal/graph"} {
+		fs, names, err := parseDir(fset, filepath.Join(src, dir))
+		if err != nil {
+			fmt.Fprintln(os.Stderr, "mutgen:", err)
+			os.Exit(2)
+		}
+		info := &types.Info{Uses: map[*ast.Ident]types.Object{}, Defs: map[*ast.Ident]types.Object{}, Types: map[ast.Expr]types.TypeAndValue{}, Selections: map[*ast.SelectorExpr]*types.Selection{}}
+		path := "go.uber.org/dig"
+		if dir != "" {
+			path += "/" + dir
+		}
+		conf := types.Config{Importer: imp}
+		pkg, err := conf.Check(path, fset, fs, info)
+		if err != nil {
+			fmt.Fprintln(os.Stderr, "mutgen: type check:", err)
+			os.Exit(2)
+		}
+		for i, f := range fs {
+			rel := filepath.Join(dir, names[i])
+			if names[i] == "doc.go" || names[i] == "version.go" {
+				continue
+			}
+			parsed[rel] = f
+			all = append(all, collectTyped(fset, rel, f, pkg, info)...)
+		}
+	}
+	return fset, parsed, all
+}
+
+func collectTyped(fset *token.FileSet, rel string, f *ast.File, pkg *types.Package, info *types.Info) []site {
+	var out []site
+	add := func(n ast.Node, kind, text string, apply func()) {
+		out = append(out, site{rel, fset.Position(n.Pos()).Line, kind, text, apply})
+	}
+	// identifiers that are the Sel of a selector or a struct-literal key are not variables uses
+	skip := map[*ast.Ident]bool{}
+	ast.Inspect(f, func(n ast.Node) bool {
+		switch x := n.(type) {
+		case *ast.SelectorExpr:
+			skip[x.Sel] = true
+		case *ast.KeyValueExpr:
+			if id, ok := x.Key.(*ast.Ident); ok {
+				skip[id] = true
+			}
+		}
+		return true
+	})
+	ast.Inspect(f, func(n ast.Node) bool {
+		switch x := n.(type) {
+		case *ast.Ident:
+			if skip[x] || x.Name == "_" {
+				return true
+			}
+			obj, ok := info.Uses[x].(*types.Var)
+			if !ok || obj.IsField() || obj.Pkg() != pkg || obj.Parent() == pkg.Scope() {
+				return true
+			}
+			inner := pkg.Scope().Innermost(x.Pos())
+			seen := map[string]bool{x.Name: true}
+			var names []string
+			for s := inner; s != nil && s != pkg.Scope() && s != types.Universe; s = s.Parent() {
+				for _, name := range s.Names() {
+					if seen[name] || name == "_" {
+						continue
+					}
+					seen[name] = true
+					o, ok := s.Lookup(name).(*types.Var)
+					if !ok || o.Pos() >= x.Pos() || !types.Identical(o.Type(), obj.Type()) {
+						continue
+					}
+					if _, found := inner.LookupParent(name, x.Pos()); found != o {
+						continue
+					}
+					names = append(names, name)
+				}
+			}
+			sort.Strings(names)
+			old := x.Name
+			for _, name := range names {
+				name := name
+				add(x, "swap-var", old+" -> "+name, func() { x.Name = name })
+			}
+		case *ast.SelectorExpr:
+			sel := info.Selections[x]
+			if sel == nil || sel.Kind() != types.FieldVal {
+				return true
+			}
+			fld, ok := sel.Obj().(*types.Var)
+			if !ok || fld.Pkg() != pkg {
+				return true
+			}
+			recv := sel.Recv()
+			if p, ok := recv.Underlying().(*types.Pointer); ok {
+				recv = p.Elem()
+			}
+			st, ok := recv.Underlying().(*types.Struct)
+			if !ok || len(sel.Index()) != 1 {
+				return true
+			}
+			old := x.Sel.Name
+			for i := 0; i < st.NumFields(); i++ {
+				g := st.Field(i)
+				if g.Name() == old || g.Name() == "_" || !types.Identical(g.Type(), fld.Type()) {
+					continue
+				}
+				name := g.Name()
+				add(x, "swap-field", exprStr(fset, x)+" -> ."+name, func() { x.Sel.Name = name })
+			}
+		case *ast.CallExpr:
+			if se, ok := x.Fun.(*ast.SelectorExpr); ok {
+				if id, ok := se.X.(*ast.Ident); ok && id.Name == "fmt" {
+					return true // message texts only
+				}
+			}
+			for i := 0; i+1 < len(x.Args); i++ {
+				a, b := x.Args[i], x.Args[i+1]
+				ta, tb := info.TypeOf(a), info.TypeOf(b)
+				if ta == nil || tb == nil || !types.Identical(ta, tb) || exprStr(fset, a) == exprStr(fset, b) {
+					continue
+				}
+				if x.Ellipsis.IsValid() && i+1 == len(x.Args)-1 {
+					continue
+				}
+				i := i
+				add(x, "swap-args", exprStr(fset, x)+" : arguments "+fmt.Sprint(i)+" and "+fmt.Sprint(i+1), func() { x.Args[i], x.Args[i+1] = x.Args[i+1], x.Args[i] })
+			}
+		}
+		return true
+	})
+	return out
+}
+
 func main() {
+	typed := flag.Bool("typed", false, "the type-aware operators (wrong variable, wrong field, swapped arguments) instead of the syntactic ones")
 	src := flag.String("src", "/repo", "")
 	list := flag.Bool("list", false, "")
 	apply := flag.Int("apply", -1, "")
 	dst := flag.String("dst", "", "")
 	flag.Parse()
-	fset, parsed, all := load(*src)
+	var (
+		fset   *token.FileSet
+		parsed map[string]*ast.File
+		all    []site
+	)
+	if *typed {
+		fset, parsed, all = loadTyped(*src)
+	} else {
+		fset, parsed, all = load(*src)
+	}
 	if *list {
 		for i, s := range all {
 			fmt.Printf("%d\t%s:%d\t%s\t%s\n", i, s.file, s.line, s.kind, s.text)
